@@ -696,20 +696,13 @@ Proof. apply le_value_le_bytes_small. pose proof (crc32_range d). change (256 ^ 
 Lemma slice3_crc_ne4 rest o : crc32 (slice rest o 3) <> 4.
 Proof. apply crc32_short_ne4. pose proof (slice_length_le rest o 3 ltac:(lia)). lia. Qed.
 
-Theorem create_crash_safe_proof : forall pre hdr k j h,
-  open_view (image_at [] (create_trace pre hdr) k j) = Some h ->
-  image_at [] (create_trace pre hdr) k j = final_image [] (create_trace pre hdr)
+Lemma create_sig_analysis pre hdr rest n h : (n <= 24)%nat ->
+  open_view (P8 ++ mix n (new24 0 pre hdr) skel24 ++ rest) = Some h ->
+  mix n (new24 0 pre hdr) skel24 = new24 0 pre hdr
   \/ exists m, (9 <= m <= 15)%nat /\ 256 ^ (Z.of_nat m - 8) <= zlenb (concat hdr) /\
        collides (mix m (new20 0 pre hdr) skel20) (new20 0 pre hdr) /\ crc32 h = 4.
 Proof.
-  intros pre hdr k j h V.
-  destruct (create_images pre hdr k j) as [[t [Ht E]]|[[t E]|[n [Hn E]]]]; rewrite E in V |- *.
-  { exfalso. destruct (Nat.eq_dec t 32) as [e|ne].
-    - subst t. rewrite <- (app_nil_r (firstn 32 skeleton32)) in V.
-      change (firstn 32 skeleton32) with skeleton32 in V. rewrite skeleton_rejected in V. discriminate V.
-    - rewrite short_rejected in V; [discriminate V|]. rewrite firstn_length. lia. }
-  { exfalso. rewrite skeleton_rejected in V. discriminate V. }
-  rewrite create_final.
+  intros Hn V.
   set (ofs := zlenb (concat pre)) in *. set (size := zlenb (concat hdr)) in *. set (hc := crc32 (concat hdr)) in *.
   assert (EN : new24 0 pre hdr = le_bytes 4 (start_crc ofs size hc) ++ le_bytes 8 ofs ++ le_bytes 8 size ++ le_bytes 4 hc)
     by apply new24_0.
@@ -733,8 +726,8 @@ Proof.
     as [[L4 M]|[[m [En [Lm [M M20]]]]|[[m [En [Lm [M M20]]]]|[m [En [Lm [M M20]]]]]]]; rewrite M in V |- *.
   - (* inside the start-header CRC field: the declared next header is 3 bytes with CRC 4 *)
     exfalso.
-    replace (P8 ++ (mix n C (le_bytes 4 1) ++ le_bytes 8 2 ++ le_bytes 8 3 ++ le_bytes 4 4) ++ body pre hdr)
-      with (parts_bytes (mkParts P8 (mix n C (le_bytes 4 1)) (le_bytes 8 2) (le_bytes 8 3) (le_bytes 4 4)) ++ body pre hdr) in V
+    replace (P8 ++ (mix n C (le_bytes 4 1) ++ le_bytes 8 2 ++ le_bytes 8 3 ++ le_bytes 4 4) ++ rest)
+      with (parts_bytes (mkParts P8 (mix n C (le_bytes 4 1)) (le_bytes 8 2) (le_bytes 8 3) (le_bytes 4 4)) ++ rest) in V
       by (unfold parts_bytes; cbn [sp_pfx sp_x sp_o sp_z sp_h]; now rewrite <- !app_assoc).
     apply open_view_parts in V.
     + destruct V as (_ & Eh & Ec & _). cbn [sp_o sp_z sp_h] in Eh, Ec.
@@ -743,8 +736,8 @@ Proof.
     + repeat split; try reflexivity. cbn [sp_x]. rewrite mix_length; [exact LC | now rewrite LC].
   - (* inside the offset field: still 3 bytes with CRC 4 *)
     exfalso.
-    replace (P8 ++ (C ++ mix m O (le_bytes 8 2) ++ le_bytes 8 3 ++ le_bytes 4 4) ++ body pre hdr)
-      with (parts_bytes (mkParts P8 C (mix m O (le_bytes 8 2)) (le_bytes 8 3) (le_bytes 4 4)) ++ body pre hdr) in V
+    replace (P8 ++ (C ++ mix m O (le_bytes 8 2) ++ le_bytes 8 3 ++ le_bytes 4 4) ++ rest)
+      with (parts_bytes (mkParts P8 C (mix m O (le_bytes 8 2)) (le_bytes 8 3) (le_bytes 4 4)) ++ rest) in V
       by (unfold parts_bytes; cbn [sp_pfx sp_x sp_o sp_z sp_h]; now rewrite <- !app_assoc).
     apply open_view_parts in V.
     + destruct V as (_ & Eh & Ec & _). cbn [sp_o sp_z sp_h] in Eh, Ec.
@@ -754,8 +747,8 @@ Proof.
       * rewrite mix_length; [exact LO | now rewrite LO].
       * apply wf_mix; [exact WO | reflexivity].
   - (* inside the size field *)
-    replace (P8 ++ (C ++ O ++ mix m Zf (le_bytes 8 3) ++ le_bytes 4 4) ++ body pre hdr)
-      with (parts_bytes (mkParts P8 C O (mix m Zf (le_bytes 8 3)) (le_bytes 4 4)) ++ body pre hdr) in V
+    replace (P8 ++ (C ++ O ++ mix m Zf (le_bytes 8 3) ++ le_bytes 4 4) ++ rest)
+      with (parts_bytes (mkParts P8 C O (mix m Zf (le_bytes 8 3)) (le_bytes 4 4)) ++ rest) in V
       by (unfold parts_bytes; cbn [sp_pfx sp_x sp_o sp_z sp_h]; now rewrite <- !app_assoc).
     apply open_view_parts in V.
     2:{ repeat split; try reflexivity; try assumption; cbn [sp_z].
@@ -791,8 +784,8 @@ Proof.
         { replace (Z.of_nat (8 + m) - 8) with (Z.of_nat m) by lia. exact Hs. }
         rewrite M20. split; [exact c | exact Ec].
   - (* inside the next-header CRC field: a window of 4 bytes *)
-    replace (P8 ++ (C ++ O ++ Zf ++ mix m Hf (le_bytes 4 4)) ++ body pre hdr)
-      with (parts_bytes (mkParts P8 C O Zf (mix m Hf (le_bytes 4 4))) ++ body pre hdr) in V
+    replace (P8 ++ (C ++ O ++ Zf ++ mix m Hf (le_bytes 4 4)) ++ rest)
+      with (parts_bytes (mkParts P8 C O Zf (mix m Hf (le_bytes 4 4))) ++ rest) in V
       by (unfold parts_bytes; cbn [sp_pfx sp_x sp_o sp_z sp_h]; now rewrite <- !app_assoc).
     apply open_view_parts in V.
     2:{ repeat split; try reflexivity; try assumption; cbn [sp_h].
@@ -805,6 +798,24 @@ Proof.
       - rewrite mix_length; [lia | now rewrite LH].
       - rewrite !app_nil_r, <- !app_assoc. exact Ex. }
     left. rewrite EH. reflexivity.
+Qed.
+
+
+Theorem create_crash_safe_proof : forall pre hdr k j h,
+  open_view (image_at [] (create_trace pre hdr) k j) = Some h ->
+  image_at [] (create_trace pre hdr) k j = final_image [] (create_trace pre hdr)
+  \/ exists m, (9 <= m <= 15)%nat /\ 256 ^ (Z.of_nat m - 8) <= zlenb (concat hdr) /\
+       collides (mix m (new20 0 pre hdr) skel20) (new20 0 pre hdr) /\ crc32 h = 4.
+Proof.
+  intros pre hdr k j h V.
+  destruct (create_images pre hdr k j) as [[t [Ht E]]|[[t E]|[n [Hn E]]]]; rewrite E in V |- *.
+  { exfalso. destruct (Nat.eq_dec t 32) as [e|ne].
+    - subst t. rewrite <- (app_nil_r (firstn 32 skeleton32)) in V.
+      change (firstn 32 skeleton32) with skeleton32 in V. rewrite skeleton_rejected in V. discriminate V.
+    - rewrite short_rejected in V; [discriminate V|]. rewrite firstn_length. lia. }
+  { exfalso. rewrite skeleton_rejected in V. discriminate V. }
+  rewrite create_final.
+  destruct (create_sig_analysis pre hdr (body pre hdr) n h Hn V) as [e|r]; [left; now rewrite e | right; exact r].
 Qed.
 
 Lemma slice_body pre hdr : slice (body pre hdr) (zlenb (concat pre)) (zlenb (concat hdr)) = concat hdr.
@@ -1102,7 +1113,7 @@ Section Append.
       { unfold parts_bytes. cbn [sp_pfx sp_x sp_o sp_z sp_h]. rewrite <- B24_split.
         symmetry. apply I_split. }
       rewrite EI in V |- *.
-      assert (K : firstn p I = firstn p old) by (apply write_at_firstn_keep; lia).
+      assert (K : firstn p I = firstn p old) by (apply write_at_firstn_keep; [apply Nat.le_refl | apply Hp]).
       split; [exact K|].
       eapply view_by_sig_proof; [ | exact V | exact Hold]; apply KeepSig, K.
     - (* inside the offset field *)
@@ -1133,9 +1144,11 @@ Section Append.
         { intros ->. rewrite mix_all in Ex by (rewrite ?LZ, ?L3; reflexivity || lia).
           destruct c as [c _]. apply c. rewrite mix_all by (rewrite ?LZ, ?L3; reflexivity || lia).
           f_equal. f_equal.
-          apply (burst4_eq (O ++ Zf) HB Hf []); try assumption; try reflexivity; try lia.
+          apply (burst4_eq (O ++ Zf) HB Hf []); try assumption; try reflexivity;
+            try (rewrite ?L4, ?LH; apply Nat.le_refl); try (rewrite ?L4, ?LH; reflexivity);
+            try (rewrite L4; repeat constructor).
           rewrite !app_nil_r, <- !app_assoc. exact Ex. }
-        lia.
+        clear - Lm m8. lia.
     - (* inside the next-header CRC field: a window of 4 bytes *)
       replace (P ++ (C ++ O ++ Zf ++ mix m Hf HB) ++ skipn 32 I)
         with (parts_bytes (mkParts P C O Zf (mix m Hf HB)) ++ skipn 32 I) in V
@@ -1148,7 +1161,94 @@ Section Append.
       { apply (burst4_eq (O ++ Zf) _ Hf []); try assumption.
         - now apply wf_mix.
         - rewrite mix_length; [reflexivity | now rewrite LH].
-        - rewrite mix_length; [lia | now rewrite LH].
+        - rewrite mix_length; [rewrite LH; apply Nat.le_refl | now rewrite LH].
+        - rewrite !app_nil_r, <- !app_assoc. exact Ex. }
+      right. left. rewrite EH. reflexivity.
+  Qed.
+
+  (* the same analysis with ANYTHING after the 32 signature bytes *)
+  Lemma append_sig_analysis : forall rest n h, (n <= 24)%nat ->
+    open_view (P ++ mix n N24 B24 ++ rest) = Some h ->
+    mix n N24 B24 = B24 \/ mix n N24 B24 = N24
+    \/ exists m, (m < 16)%nat /\
+         collides (mix m (new20 base pre hdr) (OB ++ ZB ++ HB)) (new20 base pre hdr).
+  Proof.
+    intros rest n h Hn V.
+    destruct old_fields as (L1 & L2 & L3 & L4 & W1 & W2 & W3 & W4).
+    pose proof old_consistent as OC.
+    set (ofs := base + zlenb (concat pre)) in *.
+    set (size := zlenb (concat hdr)) in *. set (hc := crc32 (concat hdr)) in *.
+    assert (EN : N24 = le_bytes 4 (start_crc ofs size hc) ++ le_bytes 8 ofs ++ le_bytes 8 size ++ le_bytes 4 hc)
+      by reflexivity.
+    assert (EN20 : new20 base pre hdr = le_bytes 8 ofs ++ le_bytes 8 size ++ le_bytes 4 hc) by reflexivity.
+    set (C := le_bytes 4 (start_crc ofs size hc)) in *.
+    set (O := le_bytes 8 ofs) in *. set (Zf := le_bytes 8 size) in *. set (Hf := le_bytes 4 hc) in *.
+    assert (LC : length C = 4%nat) by apply le_bytes_length.
+    assert (LO : length O = 8%nat) by apply le_bytes_length.
+    assert (LZ : length Zf = 8%nat) by apply le_bytes_length.
+    assert (LH : length Hf = 4%nat) by apply le_bytes_length.
+    assert (WC : wf_bytes C = true) by apply le_bytes_wf.
+    assert (WO : wf_bytes O = true) by apply le_bytes_wf.
+    assert (WZ : wf_bytes Zf = true) by apply le_bytes_wf.
+    assert (WH : wf_bytes Hf = true) by apply le_bytes_wf.
+    assert (VC : le_value C = crc32 (O ++ Zf ++ Hf)) by (subst C; unfold start_crc, start_fields; apply le4_crc).
+    rewrite EN, B24_split in V |- *. rewrite EN20.
+    destruct (mix24_cases C O Zf Hf CB OB ZB HB LC LO LZ LH L1 L2 L3 L4 n Hn)
+      as [[Ln M]|[[m [En [Lm [M M20]]]]|[[m [En [Lm [M M20]]]]|[m [En [Lm [M M20]]]]]]]; rewrite M in V |- *.
+    - left.
+      replace (P ++ (mix n C CB ++ OB ++ ZB ++ HB) ++ rest)
+        with (parts_bytes (mkParts P (mix n C CB) OB ZB HB) ++ rest) in V
+        by (unfold parts_bytes; cbn [sp_pfx sp_x sp_o sp_z sp_h]; now rewrite <- !app_assoc).
+      apply open_view_parts in V.
+      2:{ repeat split; try assumption; cbn [sp_pfx sp_x]; [apply LP|].
+          rewrite mix_length; [exact LC | now rewrite LC]. }
+      destruct V as (Ex & _). cbn [sp_x sp_o sp_z sp_h] in Ex.
+      f_equal.
+      apply le_value_inj; [now apply wf_mix | exact W1 | rewrite mix_length; [now rewrite LC | now rewrite LC] |].
+      now rewrite <- Ex, OC.
+    - replace (P ++ (C ++ mix m O OB ++ ZB ++ HB) ++ rest)
+        with (parts_bytes (mkParts P C (mix m O OB) ZB HB) ++ rest) in V
+        by (unfold parts_bytes; cbn [sp_pfx sp_x sp_o sp_z sp_h]; now rewrite <- !app_assoc).
+      apply open_view_parts in V.
+      2:{ repeat split; try assumption; cbn [sp_pfx sp_o]; [apply LP | |].
+          - rewrite mix_length; [exact LO | now rewrite LO].
+          - now apply wf_mix. }
+      destruct V as (Ex & _). cbn [sp_x sp_o sp_z sp_h] in Ex. rewrite VC in Ex.
+      right. destruct (collides_or_eq _ _ Ex) as [e|c].
+      + left. rewrite e. reflexivity.
+      + right. exists m. split; [clear - Lm; lia|]. rewrite M20. exact c.
+    - replace (P ++ (C ++ O ++ mix m Zf ZB ++ HB) ++ rest)
+        with (parts_bytes (mkParts P C O (mix m Zf ZB) HB) ++ rest) in V
+        by (unfold parts_bytes; cbn [sp_pfx sp_x sp_o sp_z sp_h]; now rewrite <- !app_assoc).
+      apply open_view_parts in V.
+      2:{ repeat split; try assumption; cbn [sp_pfx sp_z]; [apply LP | |].
+          - rewrite mix_length; [exact LZ | now rewrite LZ].
+          - now apply wf_mix. }
+      destruct V as (Ex & _). cbn [sp_x sp_o sp_z sp_h] in Ex. rewrite VC in Ex.
+      right. destruct (collides_or_eq _ _ Ex) as [e|c].
+      + left. rewrite e. reflexivity.
+      + right. exists (8 + m)%nat. rewrite M20. split; [|exact c].
+        assert (m8 : m <> 8%nat).
+        { intros ->. rewrite mix_all in Ex by (rewrite ?LZ, ?L3; reflexivity || lia).
+          destruct c as [c _]. apply c. rewrite mix_all by (rewrite ?LZ, ?L3; reflexivity || lia).
+          f_equal. f_equal.
+          apply (burst4_eq (O ++ Zf) HB Hf []); try assumption; try reflexivity;
+            try (rewrite ?L4, ?LH; apply Nat.le_refl); try (rewrite ?L4, ?LH; reflexivity);
+            try (rewrite L4; repeat constructor).
+          rewrite !app_nil_r, <- !app_assoc. exact Ex. }
+        clear - Lm m8. lia.
+    - replace (P ++ (C ++ O ++ Zf ++ mix m Hf HB) ++ rest)
+        with (parts_bytes (mkParts P C O Zf (mix m Hf HB)) ++ rest) in V
+        by (unfold parts_bytes; cbn [sp_pfx sp_x sp_o sp_z sp_h]; now rewrite <- !app_assoc).
+      apply open_view_parts in V.
+      2:{ repeat split; try assumption; cbn [sp_pfx sp_h]; [apply LP |].
+          rewrite mix_length; [exact LH | now rewrite LH]. }
+      destruct V as (Ex & _). cbn [sp_x sp_o sp_z sp_h] in Ex. rewrite VC in Ex.
+      assert (EH : mix m Hf HB = Hf).
+      { apply (burst4_eq (O ++ Zf) _ Hf []); try assumption.
+        - now apply wf_mix.
+        - rewrite mix_length; [reflexivity | now rewrite LH].
+        - rewrite mix_length; [rewrite LH; apply Nat.le_refl | now rewrite LH].
         - rewrite !app_nil_r, <- !app_assoc. exact Ex. }
       right. left. rewrite EH. reflexivity.
   Qed.
@@ -1274,7 +1374,7 @@ Theorem sig_field_lost_proof : forall P C O Zf Hf CB OB ZB HB rest lost h,
 Proof.
   intros P C O Zf Hf CB OB ZB HB rest lost h LP LC LO LZ LH LCB LOB LZB LHB WC WO WZ WH WCB WOB WZB WHB VC Hl V.
   unfold lost_sig24 in *.
-  destruct lost as [|[|[|[|l]]]]; try lia; cbn [Nat.eqb] in V |- *.
+  destruct lost as [|[|[|[|l]]]]; [ | | | | exfalso; clear - Hl; lia]; cbn [Nat.eqb] in V |- *.
   - replace (P ++ (CB ++ O ++ Zf ++ Hf) ++ rest) with (parts_bytes (mkParts P CB O Zf Hf) ++ rest) in V
       by (unfold parts_bytes; cbn [sp_pfx sp_x sp_o sp_z sp_h]; now rewrite <- !app_assoc).
     apply open_view_parts in V; [| repeat split; assumption].
@@ -1317,7 +1417,8 @@ Proof.
     apply open_view_parts in V; [| repeat split; assumption].
     destruct V as (Ex & _). cbn [sp_x sp_o sp_z sp_h] in Ex. rewrite VC in Ex.
     left. do 3 f_equal.
-    apply (burst4_eq (O ++ Zf) HB Hf []); try assumption; try lia.
+    apply (burst4_eq (O ++ Zf) HB Hf []); try assumption;
+      try (rewrite ?LHB, ?LH; apply Nat.le_refl); try (rewrite ?LHB, ?LH; reflexivity).
     rewrite !app_nil_r, <- !app_assoc. exact Ex.
 Qed.
 
@@ -1410,4 +1511,262 @@ Proof.
   exists 1000, copy_dec, toy_old, 32%nat, [[7; 7]], [[1; 0]], 1%nat, 2%nat, [7; 7].
   repeat split; try (vm_compute; reflexivity); try (vm_compute; lia).
   discriminate.
+Qed.
+
+(* ------------------------------------------------------------------ *)
+(* one data/header write lost, at the level of operations              *)
+(* ------------------------------------------------------------------ *)
+Lemma write_at_length_ge_gen img pos d : (length img <= length (write_at img pos d))%nat.
+Proof.
+  destruct d as [|x d]; [cbn; lia|]. unfold write_at.
+  rewrite !app_length, firstn_length, zeros_length, skipn_length. cbn [length]. lia.
+Qed.
+
+Lemma write_at_app_l A R c d : (c <= length A)%nat ->
+  write_at (A ++ R) c d = write_at A c d ++ skipn (c + length d - length A) R.
+Proof.
+  intros H. rewrite (write_at_in (A ++ R)) by (rewrite app_length; lia). rewrite (write_at_in A) by lia.
+  rewrite firstn_app_le by lia. rewrite skipn_app. rewrite <- !app_assoc. reflexivity.
+Qed.
+
+Lemma firstn32_write_at_high X c d : (32 <= c)%nat -> (32 <= length X)%nat ->
+  firstn 32 (write_at X c d) = firstn 32 X.
+Proof.
+  intros Hc HX. destruct d as [|x d]; [reflexivity|]. unfold write_at.
+  rewrite firstn_app_le by (rewrite firstn_length; lia).
+  rewrite firstn_firstn. f_equal. lia.
+Qed.
+
+Lemma write_at_agree a b c d : firstn 32 a = firstn 32 b -> (32 <= length a)%nat -> (32 <= length b)%nat ->
+  firstn 32 (write_at a c d) = firstn 32 (write_at b c d).
+Proof.
+  intros E La Lb. destruct (Nat.le_gt_cases 32 c) as [H|H].
+  - rewrite !firstn32_write_at_high by assumption. exact E.
+  - assert (Ea : a = firstn 32 a ++ skipn 32 a) by (symmetry; apply firstn_skipn).
+    assert (Eb : b = firstn 32 b ++ skipn 32 b) by (symmetry; apply firstn_skipn).
+    rewrite Ea, Eb. rewrite !write_at_app_l by (rewrite firstn_length; lia).
+    assert (G : forall A X, (32 <= length A)%nat -> firstn 32 (write_at A c d ++ X) = firstn 32 (write_at A c d)).
+    { intros A X HA. apply firstn_app_le. eapply Nat.le_trans; [exact HA | apply write_at_length_ge_gen]. }
+    rewrite !G by (rewrite firstn_length; lia). now rewrite E.
+Qed.
+
+Definition agree32 (a b : fstate) : Prop :=
+  snd a = snd b /\ firstn 32 (fst a) = firstn 32 (fst b) /\
+  (32 <= length (fst a))%nat /\ (32 <= length (fst b))%nat.
+
+Lemma agree_step s1 s2 o : agree32 s1 s2 -> agree32 (apply_op s1 o) (apply_op s2 o).
+Proof.
+  intros (C & E & L1 & L2). destruct o as [p|d]; cbn [apply_op fst snd].
+  - repeat split; assumption.
+  - rewrite C. repeat split.
+    + now apply write_at_agree.
+    + eapply Nat.le_trans; [exact L1 | apply write_at_length_ge_gen].
+    + eapply Nat.le_trans; [exact L2 | apply write_at_length_ge_gen].
+Qed.
+
+Lemma agree_run tr : forall s1 s2, agree32 s1 s2 -> agree32 (run tr s1) (run tr s2).
+Proof.
+  induction tr as [|o r IH]; intros s1 s2 H; [exact H|].
+  unfold run in *. cbn [fold_left]. apply IH, agree_step, H.
+Qed.
+
+Lemma lost_step s o : (32 <= snd s)%nat -> (32 <= length (fst s))%nat ->
+  agree32 (apply_op_lost s o) (apply_op s o).
+Proof.
+  intros Hc Hl. destruct o as [p|d]; cbn [apply_op apply_op_lost fst snd].
+  - repeat split; assumption.
+  - repeat split; try assumption.
+    + symmetry. now apply firstn32_write_at_high.
+    + eapply Nat.le_trans; [exact Hl | apply write_at_length_ge_gen].
+Qed.
+
+Lemma run_lost_agree : forall tr d st, (d < length tr)%nat ->
+  (32 <= snd (run (firstn d tr) st))%nat -> (32 <= length (fst (run (firstn d tr) st)))%nat ->
+  agree32 (run_lost tr d st) (run tr st).
+Proof.
+  induction tr as [|o r IH]; intros d st Hd Hc Hl; [cbn in Hd; lia|].
+  destruct d as [|d'].
+  - cbn [run_lost]. cbn [firstn] in Hc, Hl. unfold run in Hc, Hl. cbn [fold_left] in Hc, Hl.
+    change (run (o :: r) st) with (run r (apply_op st o)).
+    apply agree_run, lost_step; assumption.
+  - cbn [run_lost]. change (run (o :: r) st) with (run r (apply_op st o)).
+    apply IH; [cbn [length] in Hd; lia | |];
+      change (run (firstn (S d') (o :: r)) st) with (run (firstn d' r) (apply_op st o)) in *; assumption.
+Qed.
+
+Lemma run_lost_beyond : forall tr d st, (length tr <= d)%nat -> run_lost tr d st = run tr st.
+Proof.
+  induction tr as [|o r IH]; intros d st H; [reflexivity|].
+  destruct d as [|d']; [cbn in H; lia|].
+  cbn [run_lost]. change (run (o :: r) st) with (run r (apply_op st o)). apply IH. cbn [length] in H. lia.
+Qed.
+
+Lemma image_lost_same old tr d k j : (k <= d)%nat -> image_lost old tr d k j = image_at old tr k j.
+Proof.
+  intros H. unfold image_lost, image_at, image_from.
+  rewrite run_lost_beyond; [reflexivity|]. rewrite firstn_length. lia.
+Qed.
+
+(* a lost write at an offset >= 32 leaves the 32 signature bytes of every later crash image as they are without the loss *)
+Lemma image_lost_sig old tr d k j : (d < k)%nat -> (d < length tr)%nat ->
+  (32 <= snd (run (firstn d tr) (old, O)))%nat -> (32 <= length (fst (run (firstn d tr) (old, O))))%nat ->
+  firstn 32 (image_lost old tr d k j) = firstn 32 (image_at old tr k j) /\
+  (32 <= length (image_lost old tr d k j))%nat.
+Proof.
+  intros Hdk Hd Hc Hl. unfold image_lost, image_at, image_from.
+  assert (A : agree32 (run_lost (firstn k tr) d (old, O)) (run (firstn k tr) (old, O))).
+  { apply run_lost_agree.
+    - rewrite firstn_length. lia.
+    - rewrite firstn_firstn. replace (Nat.min d k) with d by lia. exact Hc.
+    - rewrite firstn_firstn. replace (Nat.min d k) with d by lia. exact Hl. }
+  destruct A as (C & E & L1 & L2).
+  destruct (nth_error tr k) as [[p|x]|].
+  - split; assumption.
+  - rewrite C. split.
+    + now apply write_at_agree.
+    + eapply Nat.le_trans; [exact L1 | apply write_at_length_ge_gen].
+  - split; assumption.
+Qed.
+
+Lemma firstn32_split (img : bytes) : (32 <= length img)%nat -> img = firstn 32 img ++ skipn 32 img.
+Proof. intros _. symmetry. apply firstn_skipn. Qed.
+
+(* create: where the cursor is when a data/header write is issued *)
+Lemma create_body_state pre hdr i : (i <= length (pre ++ hdr))%nat ->
+  (32 <= snd (run (firstn (9 + i) (create_trace pre hdr)) ([], O)))%nat /\
+  (32 <= length (fst (run (firstn (9 + i) (create_trace pre hdr)) ([], O))))%nat.
+Proof.
+  intros Hi. rewrite create_trace_segs.
+  set (s1 := (O, [MAGIC; [0]; [4]; le_bytes 4 1; le_bytes 8 2; le_bytes 8 3; le_bytes 4 4])).
+  set (s3 := (O, _)).
+  assert (L1 : length (seg_trace s1) = 8%nat) by reflexivity.
+  rewrite firstn_app_ge by (rewrite L1; lia). rewrite L1.
+  replace (9 + i - 8)%nat with (S i) by lia.
+  change (seg_trace (32%nat, pre ++ hdr)) with (Seek 32 :: map Write (pre ++ hdr)).
+  cbn [firstn app].
+  rewrite firstn_app_le by (rewrite map_length; exact Hi).
+  rewrite firstn_map. rewrite run_app.
+  assert (R1 : run (seg_trace s1) ([], O) = (skeleton32, 32%nat)).
+  { rewrite run_seg by (cbn; lia). reflexivity. }
+  unfold bytes in *. rewrite R1.
+  change (run (Seek 32 :: map Write (firstn i (pre ++ hdr))) (skeleton32, 32%nat))
+    with (run (map Write (firstn i (pre ++ hdr))) (skeleton32, 32%nat)).
+  rewrite run_writes by (cbn; lia). cbn [fst snd]. split; [lia|].
+  eapply Nat.le_trans; [|apply write_at_length_ge_gen]. cbn. lia.
+Qed.
+
+Theorem create_lost_body_write_safe_proof : forall pre hdr i k j h,
+  32 + zlenb (concat pre) < 2 ^ 63 -> zlenb (concat hdr) < 2 ^ 63 ->
+  (i < length (pre ++ hdr))%nat ->
+  open_view (image_lost [] (create_trace pre hdr) (9 + i) k j) = Some h ->
+  (h = concat hdr \/ collides h (concat hdr))
+  \/ exists m, (9 <= m <= 15)%nat /\ 256 ^ (Z.of_nat m - 8) <= zlenb (concat hdr) /\
+       collides (mix m (new20 0 pre hdr) skel20) (new20 0 pre hdr) /\ crc32 h = 4.
+Proof.
+  intros pre hdr i k j h B1 B2 Hi V.
+  destruct (Nat.le_gt_cases k (9 + i)) as [Hk|Hk].
+  { rewrite image_lost_same in V by exact Hk.
+    destruct (create_crash_safe_proof pre hdr k j h V) as [e|r]; [left | right; exact r].
+    rewrite e, (create_final_accepts_proof pre hdr B1 B2) in V. injection V as V. left. now symmetry. }
+  destruct (create_body_state pre hdr i (Nat.lt_le_incl _ _ Hi)) as [Sc Sl].
+  assert (Ld : (9 + i < length (create_trace pre hdr))%nat).
+  { unfold create_trace, skeleton_writes, sig_writes. rewrite !app_length, !map_length. cbn [length].
+    rewrite app_length in Hi. unfold bytes in *. lia. }
+  destruct (image_lost_sig [] (create_trace pre hdr) (9 + i) k j Hk Ld Sc Sl) as [E L].
+  set (img := image_lost [] (create_trace pre hdr) (9 + i) k j) in *.
+  rewrite (firstn32_split img L) in V. rewrite E in V.
+  destruct (create_images pre hdr k j) as [[t [Ht A]]|[[t A]|[n [Hn A]]]]; rewrite A in V, E.
+  - exfalso. destruct (Nat.eq_dec t 32) as [e|ne].
+    + subst t. rewrite firstn_firstn in V. change (firstn (Nat.min 32 32) skeleton32) with skeleton32 in V.
+      rewrite skeleton_rejected in V. discriminate V.
+    + assert (Q : (length (firstn 32 img) < 32)%nat).
+      { rewrite E, firstn_firstn, firstn_length. change (length skeleton32) with 32%nat. lia. }
+      rewrite firstn_length in Q. lia.
+  - exfalso. rewrite firstn_app_le in V by (change (length skeleton32) with 32%nat; lia).
+    change (firstn 32 skeleton32) with skeleton32 in V. rewrite skeleton_rejected in V. discriminate V.
+  - assert (L24 : length (mix n (new24 0 pre hdr) skel24) = 24%nat)
+      by (rewrite mix_length; [apply new24_length | now rewrite new24_length]).
+    assert (F : firstn 32 (P8 ++ mix n (new24 0 pre hdr) skel24 ++ body pre hdr) = P8 ++ mix n (new24 0 pre hdr) skel24).
+    { rewrite app_assoc. rewrite firstn_app_le by (rewrite app_length, L24; cbn; lia).
+      apply firstn_all2. rewrite app_length, L24. cbn. lia. }
+    rewrite F in V, E. rewrite <- app_assoc in V.
+    destruct (create_sig_analysis pre hdr (skipn 32 img) n h Hn V) as [e|r]; [left | right; exact r].
+    apply (create_sig_first_safe_proof pre hdr img h B1 B2); [| rewrite (firstn32_split img L), E, <- app_assoc; exact V].
+    rewrite E, e, create_final.
+    rewrite app_assoc, firstn_app_le by (rewrite app_length, new24_length; cbn; lia).
+    rewrite firstn_all2 by (rewrite app_length, new24_length; cbn; lia). reflexivity.
+Qed.
+
+Lemma append_body_state old p pre hdr i : (32 <= p <= length old)%nat -> (i <= length (pre ++ hdr))%nat ->
+  (32 <= snd (run (firstn (1 + i) (append_trace old p pre hdr)) (old, O)))%nat /\
+  (32 <= length (fst (run (firstn (1 + i) (append_trace old p pre hdr)) (old, O))))%nat.
+Proof.
+  intros Hp Hi. rewrite append_trace_segs.
+  change (seg_trace (p, pre ++ hdr)) with (Seek p :: map Write (pre ++ hdr)).
+  cbn [Nat.add firstn app].
+  rewrite firstn_app_le by (rewrite map_length; exact Hi).
+  rewrite firstn_map.
+  change (run (Seek p :: map Write (firstn i (pre ++ hdr))) (old, O))
+    with (run (map Write (firstn i (pre ++ hdr))) (old, p)).
+  rewrite run_writes by lia. cbn [fst snd]. split; [lia|].
+  eapply Nat.le_trans; [|apply write_at_length_ge_gen]. lia.
+Qed.
+
+Lemma firstn32_old (old : bytes) : (32 <= length old)%nat ->
+  firstn 32 old = firstn 8 old ++ firstn 24 (skipn 8 old).
+Proof.
+  intros H. rewrite (old_split old) at 1.
+  rewrite firstn_app_le by (rewrite app_length, !firstn_length, skipn_length; lia).
+  apply firstn_all2. rewrite app_length, !firstn_length, skipn_length. lia.
+Qed.
+
+Theorem append_lost_body_write_safe_proof : forall old p pre hdr oh i k j h,
+  wf_bytes old = true -> open_view old = Some oh -> (32 <= p <= length old)%nat ->
+  Z.of_nat p + zlenb (concat pre) < 2 ^ 63 -> zlenb (concat hdr) < 2 ^ 63 ->
+  (i < length (pre ++ hdr))%nat ->
+  open_view (image_lost old (append_trace old p pre hdr) (1 + i) k j) = Some h ->
+  (h = oh \/ collides h oh) \/ (h = concat hdr \/ collides h (concat hdr))
+  \/ exists m, (m < 16)%nat /\
+       collides (mix m (new20 (Z.of_nat p - 32) pre hdr) (old20 old)) (new20 (Z.of_nat p - 32) pre hdr).
+Proof.
+  intros old p pre hdr oh i k j h W Vo Hp B1 B2 Hi V.
+  pose proof (open_view_magic _ _ Vo) as Hm.
+  destruct (Nat.le_gt_cases k (1 + i)) as [Hk|Hk].
+  { rewrite image_lost_same in V by exact Hk.
+    destruct (append_crash_safe_proof old p pre hdr oh W Vo Hp k j h V) as [[_ r]|[e|r]].
+    - left. exact r.
+    - right. left. left.
+      rewrite e, (append_final_accepts_proof old p pre hdr oh Vo Hp B1 B2) in V. injection V as V. now symmetry.
+    - right. right. exact r. }
+  destruct (append_body_state old p pre hdr i Hp (Nat.lt_le_incl _ _ Hi)) as [Sc Sl].
+  assert (Ld : (1 + i < length (append_trace old p pre hdr))%nat).
+  { unfold append_trace, sig_writes. rewrite !app_length, !map_length. cbn [length].
+    rewrite app_length in Hi. unfold bytes in *. lia. }
+  destruct (image_lost_sig old (append_trace old p pre hdr) (1 + i) k j Hk Ld Sc Sl) as [E L].
+  set (img := image_lost old (append_trace old p pre hdr) (1 + i) k j) in *.
+  assert (Lo : (32 <= length old)%nat) by lia.
+  destruct (append_images old p pre hdr Hp Hm k j) as [[t A]|[n [Hn A]]]; rewrite A in E.
+  - (* the signature header is the old one *)
+    left. apply (view_by_sig_proof img old h oh); [| exact V | exact Vo].
+    rewrite E. apply write_at_firstn_keep; lia.
+  - set (B24 := firstn 24 (skipn 8 old)) in *. set (N24 := new24 (Z.of_nat p - 32) pre hdr) in *.
+    assert (L24 : length (mix n N24 B24) = 24%nat).
+    { rewrite mix_length; unfold N24; rewrite new24_length; [reflexivity|].
+      unfold B24. rewrite firstn_length, skipn_length. lia. }
+    assert (F : firstn 32 (firstn 8 old ++ mix n N24 B24 ++ skipn 32 (write_at old p (body pre hdr)))
+                = firstn 8 old ++ mix n N24 B24).
+    { rewrite app_assoc. rewrite firstn_app_le by (rewrite app_length, L24, firstn_length; lia).
+      apply firstn_all2. rewrite app_length, L24, firstn_length. lia. }
+    rewrite F in E.
+    pose proof V as V'. rewrite (firstn32_split img L), E, <- app_assoc in V'.
+    subst B24 N24.
+    destruct (append_sig_analysis old p pre hdr Hp oh Vo W (skipn 32 img) n h Hn V') as [e|[e|r]].
+    + left. apply (view_by_sig_proof img old h oh); [| exact V | exact Vo].
+      rewrite E, e. symmetry. now apply firstn32_old.
+    + right. left.
+      apply (append_sig_first_safe_proof old p pre hdr oh img h Vo Hp B1 B2); [| exact V].
+      rewrite E, e, (append_final old p pre hdr Hp Hm).
+      rewrite app_assoc, firstn_app_le by (rewrite app_length, firstn_length, new24_length; lia).
+      symmetry. apply firstn_all2. rewrite app_length, firstn_length, new24_length. lia.
+    + right. right. rewrite old20_fields in r. exact r.
 Qed.
